@@ -371,6 +371,132 @@ def job_fp(cfg):
     return jr
 
 
+class _StopAfterCheck(Exception):
+    pass
+
+
+class _Stop:
+    """stands for the parameter tensors: the first use ends the run (everything before it is the domain check)."""
+
+    def __getattr__(self, name):
+        raise _StopAfterCheck(name)
+
+    @classmethod
+    def __torch_function__(cls, func, types, args=(), kwargs=None):
+        raise _StopAfterCheck(getattr(func, "__name__", "torch function"))
+
+
+def job_fp_domain(cfg):
+    """The domain check of the bounded splines on IEEE scalars: for every finite float input, box and direction, a value
+    outside the (closed) domain interval never gets past the check - in floating point, where  (x-left)/(right-left) > 1
+    and  x > right  are different predicates."""
+    kind, inverse, prec = cfg["kind"], cfg["inverse"], cfg["prec"]
+    timeout = cfg["timeout"]
+    R = sc.new_registry()
+    solver = smt.Z3Proc()
+    F = lambda v: sc.FS(tm.fconst(v, prec))  # noqa
+    big = 1e30 if prec == "F32" else 1e300
+    h = {}
+
+    def fn():
+        x = sc.fp_var("x", prec)
+        names = ("left", "right", "bottom", "top")
+        bx = {n: sc.fp_var(n, prec) for n in names}
+        for v in list(bx.values()) + [x]:
+            explore.assume((v > F(-big)).t)
+            explore.assume((v < F(big)).t)
+        explore.assume((bx["left"] < bx["right"]).t)
+        explore.assume((bx["bottom"] < bx["top"]).t)
+        h.update(x=x, **bx)
+        xs = Sym(_obj(np.array([x], dtype=object)))
+        params = {nm: _Stop() for nm in SK.param_shapes(kind, 2, "box")}
+        box = {n: Sym(_obj(np.array(v, dtype=object))) for n, v in bx.items()}
+        return SK.call(kind, "box", xs, params, box, inverse=inverse)
+
+    ex = explore.Explorer(R, solver, decide_timeout=20.0, max_paths=64)
+    results = ex.explore(fn)
+    kernel = "%s_spline/domain-check/ieee" % kind
+    jr = C01.new_jr(kernel)
+    jr["paths"] = len(results)
+    jr["prune_queries"] = ex.stats["prune_queries"]
+    name = "%s/%s/%s" % (kernel, prec, "inverse" if inverse else "forward")
+    lo, hi = (h["bottom"], h["top"]) if inverse else (h["left"], h["right"])
+    outside = tm.or_((h["x"] < lo).t, (h["x"] > hi).t)
+    n_acc = n_rej = 0
+    for i, r in enumerate(results):
+        pname = "%s/path%d" % (name, i)
+        cond = r.path.condition()
+        if r.kind == "raise" and isinstance(r.exc, _StopAfterCheck):
+            n_acc += 1
+            st, model, secs, _ = C.check_sat(R, solver, cond + [outside], timeout)
+            jr["outcomes"].append({"name": pname + "/accepted-implies-inside", "kind": "goal", "status": st, "s": round(secs, 3), "expect": "unsat"})
+            if st == "unsat":
+                continue
+            if st != "sat":
+                jr["inconclusive"].append({"query": pname, "status": st})
+                continue
+            leaves = {k.args[0]: float(v) for k, v in (model or {}).items() if k.op == "var"}
+            call = {"kind": kind, "inverse": inverse, "prec": prec, "leaves": leaves}
+            rep = replay_fp_domain(**call)
+            payload = {"property": PROP, "kernel": kernel, "relation": "outside-value-accepted", "signature": {"kind": kind, "prec": prec}, "leaves": leaves, "replay_result": rep, "replay_call": {"fn": "harness.C17:replay_fp_domain", "args": call}}
+            if rep.get("reproduced"):
+                jr["violations"].append({"kernel": kernel, "relation": "outside-value-accepted", "signature": {"kind": kind, "prec": prec}, "replay": C.write_replay(PROP, "domain_%s_%s_%s" % (kind, prec, "inv" if inverse else "fwd"), payload), "detail": rep})
+            else:
+                jr["inconclusive"].append({"query": pname, "why": "IEEE model did not reproduce", "leaves": leaves, "replay": rep})
+        elif r.kind == "raise" and type(r.exc).__name__ == "InputOutsideDomain":
+            n_rej += 1
+            # the rejection is legitimate: the value is outside (twin: the path is reachable)
+            st, model, secs, _ = C.check_sat(R, solver, cond + [tm.not_(outside)], timeout)
+            jr["outcomes"].append({"name": pname + "/rejected-implies-outside", "kind": "goal", "status": st, "s": round(secs, 3), "expect": "unsat"})
+            if st == "sat":
+                leaves = {k.args[0]: float(v) for k, v in (model or {}).items() if k.op == "var"}
+                call = {"kind": kind, "inverse": inverse, "prec": prec, "leaves": leaves}
+                rep = replay_fp_domain(**call)
+                payload = {"property": PROP, "kernel": kernel, "relation": "inside-value-rejected", "signature": {"kind": kind, "prec": prec}, "leaves": leaves, "replay_result": rep, "replay_call": {"fn": "harness.C17:replay_fp_domain", "args": call}}
+                if rep.get("reproduced"):
+                    jr["violations"].append({"kernel": kernel, "relation": "inside-value-rejected", "signature": {"kind": kind, "prec": prec}, "replay": C.write_replay(PROP, "domain_rej_%s_%s_%s" % (kind, prec, "inv" if inverse else "fwd"), payload), "detail": rep})
+                else:
+                    jr["inconclusive"].append({"query": pname, "why": "IEEE model did not reproduce", "leaves": leaves, "replay": rep})
+            elif st != "unsat":
+                jr["inconclusive"].append({"query": pname, "status": st})
+            st2, _, secs2, _ = C.check_sat(R, solver, cond, timeout)
+            jr["outcomes"].append({"name": pname + "/reach", "kind": "twin", "status": st2, "s": round(secs2, 3), "expect": "sat"})
+        else:
+            jr["inconclusive"].append({"query": pname, "unexpected": "%s: %s" % (r.kind, r.exc)})
+    if not n_acc or not n_rej:
+        jr["inconclusive"].append({"query": name, "why": "expected accepting and rejecting paths, got %d / %d" % (n_acc, n_rej)})
+    jr["samples"].append({"kernel": name, "paths": len(results), "accepted": n_acc, "rejected": n_rej})
+    solver.close()
+    return jr
+
+
+def replay_fp_domain(kind, inverse, prec, leaves):
+    """real function, real dtype: an outside value must raise InputOutsideDomain, an inside value must not."""
+    res = {"reproduced": False}
+    dt = torch.float32 if prec == "F32" else torch.float64
+    try:
+        from nflows.transforms.splines.rational_quadratic import InputOutsideDomain as _IOD  # noqa
+    except Exception:  # noqa
+        _IOD = None
+    from nflows.utils import torchutils as _tu
+
+    x = torch.tensor([leaves["x"]], dtype=dt)
+    bx = {n: float(torch.tensor(leaves[n], dtype=dt)) for n in ("left", "right", "bottom", "top")}
+    lo, hi = (bx["bottom"], bx["top"]) if inverse else (bx["left"], bx["right"])
+    outside = bool(float(x[0]) < lo or float(x[0]) > hi)
+    params = {nm: torch.zeros(1, sz, dtype=dt) for nm, sz in SK.param_shapes(kind, 2, "box").items()}
+    res.update({"x": float(x[0]), "domain": [lo, hi], "outside": outside})
+    try:
+        y, lad = SK.real_call(kind, "box", x, params, bx, inverse)
+        res["outcome"] = "returned %r" % float(y[0])
+        res["reproduced"] = outside
+    except Exception as e:  # noqa
+        res["outcome"] = "%s: %s" % (type(e).__name__, e)
+        is_dom = type(e).__name__ == "InputOutsideDomain"
+        res["reproduced"] = (outside and not is_dom) or (not outside and is_dom)
+    return res
+
+
 def replay_fp(prec, scenario, K, leaves):
     """Replays through the public API: an unconstrained spline with tail_bound = B evaluated at x (tails), or
     the bounded spline on the box [0, B] (box); reproduced = an exception other than InputOutsideDomain
@@ -426,6 +552,8 @@ def job(cfg):
         return job_nonlin(cfg)
     if cfg["type"] == "fp":
         return job_fp(cfg)
+    if cfg["type"] == "fpdomain":
+        return job_fp_domain(cfg)
     return job_spline(cfg)
 
 
@@ -448,6 +576,11 @@ def configs(tier):
                 cfgs.append({"type": "fp", "prec": prec, "scenario": scenario, "K": K, "timeout": t})
                 # below the absorption threshold of the fixed 1e-6 the index is in range
                 cfgs.append({"type": "fp", "prec": prec, "scenario": scenario, "K": K, "timeout": t, "Bmax": 16.0 if prec == "F32" else 4.0e9})
+    # the domain check itself in IEEE arithmetic (every finite box, value and direction)
+    for prec in (("F32",) if tier == "quick" else ("F32", "F64")):
+        for kind in SK.KINDS:
+            for inverse in (False, True):
+                cfgs.append({"type": "fpdomain", "prec": prec, "kind": kind, "inverse": inverse, "timeout": t})
     return cfgs
 
 
@@ -461,7 +594,7 @@ def main():
         "per_query_timeout_s": cfgs[0]["timeout"],
     }
     rep.assumptions = [
-        "real mode is exact arithmetic; the only floating-point claim is the bin-index range of the IEEE mode",
+        "real mode is exact arithmetic; the floating-point claims are the bin-index range and the domain check (an outside value never passes, an inside value is never rejected) of the IEEE mode",
         "CauchyCDF.inverse accepts the closed interval [0,1] although tan(pi(x-1/2)) is unbounded at the end-points: the property's list of restricted transforms does not include it; it is checked for accept/reject consistency only",
         "the normalisation (x-left)/(right-left) of the linear/quadratic/cubic splines is not re-done in IEEE arithmetic (a single division was undecided at float32 in the design probes)",
         "cubic_spline(inverse=True) computes all three root branches on every lane and overwrites by masks (intermediate divisions by a == 0 are discarded lanes) and selects roots trigonometrically: its path classification is outside the claim",
